@@ -50,6 +50,9 @@ def cases(tier):
     yield {"kind": "joint", "domain": "strips"}
     yield {"kind": "joint", "domain": "numeric"}
     yield {"kind": "objectless"}
+    from ..gens import wide
+    for k in wide.SHIFTS:
+        yield {"kind": "wide", "shift": k}
     for p in sorted(glob.glob(os.path.join(REPO, "tests", "**", "*trajectory*"), recursive=True)):
         if os.path.isfile(p) and not p.endswith(".py"):
             yield {"kind": "shipped", "file": os.path.relpath(p, REPO)}
@@ -129,6 +132,8 @@ def check_single(r, case):
         if isinstance(states, Raised) or isinstance(text, Raised):
             r.outcome("skip-export-raised (C04's business)")
             continue
+        if not file_holds(r, exp, tr, text, f"plan {plan}", tags):
+            return
         r.count("histories")
         r.seen("states", digest(text))
         if len(plan) >= 2:
@@ -324,8 +329,57 @@ def check_objectless(r, case):
             r.outcome("roundtrip-ok")
 
 
+def file_holds(r, exp, tr, text, label, tags):
+    """export_to_file writes what export returns: the file reads as the same nested lists"""
+    from ..bridge import scratch_dir
+    target = os.path.join(scratch_dir(), f"c10_{os.getpid()}.trajectory_file")
+    res = guard(lambda: exp.export_to_file(tr, target))
+    got = guard(lambda: sexp.read(open(target, encoding="utf-8").read())) if not isinstance(res, Raised) else res
+    r.count("transitions")
+    if isinstance(got, Raised) or got != sexp.read(text):
+        r.fail("file-export", f"{label}: export_to_file wrote {str(got)[:400]}; export() returns {text[:400]}", text[:300],
+               str(got)[:300], tags=tags + ["export-to-file"])
+        return False
+    return True
+
+
+def check_wide(r, case):
+    """long hyphenated names, states several hundred characters wide, written through export_to_file and parsed back"""
+    from pddl_plus_parser.exporters import TrajectoryExporter
+    from pddl_plus_parser.lisp_parsers import TrajectoryParser
+    from ..gens import wide
+    from ..bridge import scratch_dir
+    r.nontrivial = True
+    D = parse_domain(wide.DOMAIN)
+    P = parse_problem(wide.problem(case["shift"]), D)
+    for plan in wide.plans(case["shift"]):
+        exp = TrajectoryExporter(D)
+        tr = guard(lambda: exp.parse_plan(P, action_sequence=[line(s) for s in plan]))
+        states = guard(lambda: [observe_state(tr[0].previous_state)] + [observe_state(t.next_state) for t in tr]) \
+            if not isinstance(tr, Raised) else tr
+        text = guard(lambda: "".join(exp.export(tr))) if not isinstance(states, Raised) else states
+        if isinstance(text, Raised):
+            r.fail("parse-raised", f"wide plan {plan}: building / exporting the trajectory raised {text}", "trajectory", str(text),
+                   tags=["wide"])
+            return
+        r.count("histories")
+        r.seen("states", digest(text))
+        if not file_holds(r, exp, tr, text, f"wide plan {plan}", ["wide"]):
+            return
+        target = os.path.join(scratch_dir(), f"c10_{os.getpid()}.trajectory_file")
+        for mode, prob in (("with-problem", P), ("objects-deduced", None)):
+            obs = guard(lambda: TrajectoryParser(D, prob).parse_trajectory(target))
+            if not compare_observation(r, obs, [[x.lower() for x in s] for s in plan], states, f"[{mode}, export_to_file] wide plan {plan}",
+                                       ["wide", mode]):
+                return
+    r.outcome("roundtrip-ok")
+
+
 def check_case(case):
     r = CaseResult()
+    if case["kind"] == "wide":
+        check_wide(r, case)
+        return r
     if case["kind"] == "objectless":
         check_objectless(r, case)
         return r
